@@ -719,6 +719,11 @@ class Run:
         except OutOfSpace as e:
             self.tags.add("oos-by-action")
             e.kind = "action"
+            if self.pos > 0 and not self.end_consumed and not self.lookahead_declined and self.oracle.choose(2) == 1:
+                # NOT part of the reading: emulation of known finding F-01h (the compiled machine performs the append on the transition
+                # that consumed the previous byte and, when it does not fit, hands that byte to the handler a second time)
+                self.pos -= 1
+                self.tags.add("quirk:F-01h")
             raise
 
     def append(self, name, b):
